@@ -319,6 +319,75 @@ def run_race(case, chooser):
             rig.close()
 
 
+# -- a reply the server's encoding cannot represent (the home directory of user eve) ---------------------------------
+ENC_CASES = [
+    ["USER eve", "PWD"],
+    ["USER eve", "PWD", "QUIT"],
+    ["USER eve", "PWD!", "QUIT"],
+    ["USER eve", "PWD", "PWD", "QUIT"],
+    ["USER eve", "MLST", "QUIT"],
+    ["USER eve", "PWD", "USER alice"],
+    ["USER eve", "PWD", "@drop"],
+    ["USER eve", "CWD /", "PWD", "QUIT"],
+    ["USER alice", "USER eve", "PWD", "USER bob", "PASS pw", "QUIT"],
+]
+
+
+def run_enc_case(hist, chooser):
+    """server encoding latin-1, user eve (limit 1) whose home directory is /€uro: whatever happens to the session whose
+    reply cannot be encoded, once it is gone every slot is available again"""
+    def users(a, base):
+        return users_factory(a, base) + [a.User("eve", None, base_path=base, home_path="/€uro", maximum_connections=1)]
+    rig = Rig(chooser=chooser, n_sessions=1, users=users, tree={"€uro": {}}, advance=0,
+              server_kwargs={"maximum_connections": 1, "idle_timeout": IDLE, "wait_future_timeout": 1,
+                             "encoding": "latin-1"})
+    try:
+        with logcap.capture() as cap:
+            chooser.active = False
+            rig.ev(0, "@connect")
+            chooser.active = True
+            for e in hist:
+                rig.ev(0, e)
+            rig.world.settle(0)
+            chooser.active = False
+            model = Model(1, 1)
+            problems = final_probe(rig, model, hist)
+            s = Session(rig.world, name="probe-eve", advance=0)
+            s.connect()
+            r = s.cmd("USER eve")
+            code = r[-1][0] if r else None
+            if code != "230":
+                problems.append({"kind": "probe-user-limit", "user": "eve", "code": code, "want": "230", "history": hist})
+            bad = [t for r_, t in cap.records if "Too many acquires" in t or "Too many releases" in t]
+            if bad:
+                problems.append({"kind": "accounting-failed", "log": bad[0][-300:], "history": hist})
+        return {"problems": problems, "trace": report.fp(rig.world.net.trace), "events": rig.world.net.n_events}
+    finally:
+        rig.close()
+
+
+def _enc_work(item):
+    hist, bound, kinds = item
+    part = report.Partial()
+    try:
+        for ch, res in explore(lambda c: run_enc_case(hist, c), bound, kinds=kinds, max_exec=5000):
+            if ch is None:
+                part.caps.append({"enc-case": hist, "cap": 5000})
+                break
+            part.evaluations += 1
+            part.traces += 1
+            part.transitions += res["events"]
+            part.states.add(res["trace"])
+            part.nontrivial.add(res["trace"])
+            part.counters[f"unencodable_reply_exec_dev{ch.deviations}"] += 1
+            for p in res["problems"][:1]:
+                part.violation({"kind": p["kind"], "unencodable_reply": True, "last": hist[-1]}, {"problem": p},
+                               replay={"mode": "enc", "hist": hist, "choices": ch.choices, "kinds": kinds})
+    except ReplayDivergence as exc:
+        part.infra.append(f"replay divergence in enc case {hist}: {exc}")
+    return part
+
+
 def _race_work(item):
     case, bound, kinds = item
     part = report.Partial()
@@ -381,10 +450,12 @@ def run(tier, seed, t0):
     bound = 1 if tier == "quick" else 3
     kinds = ["early", "order", "batch"]
     parts += report.pmap(_race_work, [(c, bound, kinds) for c in RACES])
+    parts += report.pmap(_enc_work, [(h, bound, ["early", "order", "done"]) for h in ENC_CASES])
     part = report.merge_all(parts)
     bounds = {"sessions": "2..3", "server_limits": [1, 2, None], "users": {k: v[1] for k, v in USERS.items()},
               "alphabet": ALPHABET + ["@idle (global)"], "bfs_depth": depth, "race_deviation_bound": bound,
-              "races": [c[0] for c in RACES], "user_managers": ["MemoryUserManager", "suspending subclass (vf/usermgr.py)"]}
+              "races": [c[0] for c in RACES], "unencodable_replies": "latin-1 server, user with home /€uro, %d scripts under <= d deviations incl. done-set orders" % len(ENC_CASES),
+              "user_managers": ["MemoryUserManager", "suspending subclass (vf/usermgr.py)"]}
     return report.finish(
         PID, tier, seed, "model_checking", part, t0,
         rule="BFS over interleaved event histories with the real server as transition function; a state is the history "
@@ -400,6 +471,10 @@ def run(tier, seed, t0):
 def replay(path):
     data = json.loads(open(path).read())
     rp = data["replay"]
+    if rp["mode"] == "enc":
+        res = run_enc_case(rp["hist"], Chooser(rp["choices"], rp["kinds"]))
+        print(json.dumps(res["problems"], indent=1, default=repr))
+        return 1 if res["problems"] else 0
     if rp["mode"] == "hist":
         hist = [tuple(x) for x in rp["hist"]]
         part, key, en = expand((hist, rp["n"], rp["limit"], rp.get("slow", False)))
